@@ -12,6 +12,9 @@ Definition hash_int (z : Z) : N :=
   | Zneg _ => w64 (W64 - mp_get_ui z)
   end.
 
+(* -0.0 is hashed as +0.0 (the classes' __eq__ uses ==) *)
+Definition dbl_hash_bits (b : N) : N := if b =? 9223372036854775808 then 0 else b.
+
 Definition hash_num (n : number) : N :=
   match n with
   | NInt z => hash_int z
@@ -20,8 +23,8 @@ Definition hash_num (n : number) : N :=
   | NCplx rn rd imn imd =>
       hash_combine (hash_combine (hash_combine (hash_combine TC_Complex
         (mp_get_si_w64 rn)) (mp_get_si_w64 (Zpos rd))) (mp_get_si_w64 imn)) (mp_get_si_w64 (Zpos imd))
-  | NDbl b => hash_combine TC_RealDouble b
-  | NCDbl re im => hash_combine (hash_combine TC_ComplexDouble re) im
+  | NDbl b => hash_combine TC_RealDouble (dbl_hash_bits b)
+  | NCDbl re im => hash_combine (hash_combine TC_ComplexDouble (dbl_hash_bits re)) (dbl_hash_bits im)
   | NInf dir => hash_combine TC_Infty (hash_int dir)
   | NNaN => TC_NaN
   end.
